@@ -39,6 +39,14 @@ def generate(rng, tier, idx, keep_going=False):
     r = rng.random()
     nm = 0 if r < 0.25 else rng.choice([1, 1, 1, 2, 2, 3, 4])
     muts = GT.gen_mutations(rng, info, nm)
+    if rng.random() < 0.04:
+        # an IGNOREd directory and a LISTED directory whose name merely extends the ignored one as a string (zq / zql); the
+        # listed one is missing entirely - IGNORE matches whole path components, the missing files have to be reported
+        topm_ = [m_ for m_ in g['manifests'] if m_['p'] == top]
+        if topm_ and not any(t_['p'].split('/')[0] in ('zq', 'zql') for t_ in g['tree']):
+            g['tree'].append({'p': 'zq/ignored-file', 'k': 'file', 'c': 'not covered on purpose'})
+            topm_[0]['entries'].append({'tag': 'IGNORE', 'path': 'zq'})
+            topm_[0]['entries'].append({'tag': 'DATA', 'path': rng.choice(['zql/inner', 'zq-extra/a/b', 'zq.d/f']), 'size': 3, 'sums': {}})
     if rng.random() < 0.05:
         # two Unicode spellings of "the same" name: the Manifest lists the file under one normalisation form (with its true
         # size and digest), the directory holds it under the other - to gemato these are two names: one listed file is
